@@ -12,7 +12,7 @@ Local Notation length := List.length.
 Lemma cstep_proj na m g s r s' r' : cstep na m g (s, r) (s', r') -> s' = s \/ step s s'.
 Proof.
   intros H. inversion H; subst; auto; right.
-  - destruct (r_sy r && is_nil q); unfold submit1.
+  - destruct sy; unfold submit1.
     + apply s_sync; assumption.
     + apply s_spawn; assumption.
   - unfold await_st. apply s_await; assumption.
@@ -105,28 +105,28 @@ Proof.
   - (* spawn *)
     destruct (split_task t (r_exp r)) as [[nt q]|] eqn:Es; [|discriminate].
     destruct (r_res r) eqn:Er; [discriminate|].
-    destruct (Bool.eqb (r_sy r && is_nil q) false && bres_eqb b (bres_of (fst nt)))%bool eqn:Ef; [|discriminate].
+    destruct (bres_eqb b (bres_of (fst nt))) eqn:F2; [|discriminate].
     destruct (exec_ev2 (s, p) _) as [[s1 p1]|] eqn:E; [|discriminate]. intros H; inversion H; subst.
-    apply andb_prop in Ef. destruct Ef as [F1 F2]. apply Bool.eqb_prop in F1. apply bres_eqb_eq in F2.
+    apply bres_eqb_eq in F2.
     destruct (loop_ev2 _ _ _ _ _ E eq_refl) as (-> & _ & E').
     pose proof (split_task_tid _ _ _ _ Es) as Et. subst t b.
     unfold exec_ev in E'. destruct (cp s) eqn:Ec; try discriminate.
     destruct (get_pc (tid nt) (epcs s)) eqn:Eg; [discriminate|]. inversion E'; subst.
     apply cstar_one.
-    replace (mk _ _ _ _ _ _ _) with (submit1 (r_sy r && is_nil q) nt s) by (rewrite F1; reflexivity).
+    replace (mk _ _ _ _ _ _ _) with (submit1 false nt s) by reflexivity.
     apply c_sub; auto.
   - (* sync *)
     destruct (split_task t (r_exp r)) as [[nt q]|] eqn:Es; [|discriminate].
     destruct (r_res r) eqn:Er; [discriminate|].
-    destruct (Bool.eqb (r_sy r && is_nil q) true && bres_eqb b (bres_of (fst nt)))%bool eqn:Ef; [|discriminate].
+    destruct (bres_eqb b (bres_of (fst nt))) eqn:F2; [|discriminate].
     destruct (exec_ev2 (s, p) _) as [[s1 p1]|] eqn:E; [|discriminate]. intros H; inversion H; subst.
-    apply andb_prop in Ef. destruct Ef as [F1 F2]. apply Bool.eqb_prop in F1. apply bres_eqb_eq in F2.
+    apply bres_eqb_eq in F2.
     destruct (loop_ev2 _ _ _ _ _ E eq_refl) as (-> & _ & E').
     pose proof (split_task_tid _ _ _ _ Es) as Et. subst t b.
     unfold exec_ev in E'. destruct (cp s) eqn:Ec; try discriminate.
     destruct (get_pc (tid nt) (epcs s)) eqn:Eg; [discriminate|]. inversion E'; subst.
     apply cstar_one.
-    replace (mk _ _ _ _ _ _ _) with (submit1 (r_sy r && is_nil q) nt s) by (rewrite F1; reflexivity).
+    replace (mk _ _ _ _ _ _ _) with (submit1 true nt s) by reflexivity.
     apply c_sub; auto.
   - (* await *)
     destruct (is_none_o (r_res r) && is_nil (r_exp r) && ph_wait (r_ph r))%bool eqn:Ef; [|discriminate].
